@@ -342,13 +342,17 @@ func decodeBody(ce string, body []byte) string {
 		}
 		return string(dec)
 	case "deflate":
-		zr, err := zlibNewReader(bytes.NewReader(body))
+		src := bytes.NewReader(body)
+		zr, err := zlibNewReader(src)
 		if err != nil {
 			return "!zlib:" + err.Error()
 		}
 		dec, err := ioutil.ReadAll(zr)
 		if err != nil {
 			return "!zlib:" + err.Error()
+		}
+		if src.Len() > 0 {
+			return "!zlib: bytes after the end of the stream"
 		}
 		return string(dec)
 	}
